@@ -81,6 +81,17 @@ CHECKS = {
              "above the highest attainable score, 0 at/below the lowest, monotone, never NaN or > 0.",
         note="Exercises the one numba/LLVM build in this sandbox. Observes the module-level function _pwm_to_mapping named in the "
              "property's observation points (its absence is a HARNESS-ERROR); the p-value column of fimo() is checked in C12."),
+    "C12": dict(
+        technique="property-based testing (Hypothesis): differential against a pure-numpy reference scanner with exact C11 tables + directed threshold-band construction + metamorphic views",
+        category="exploration", design_ref="DESIGN.md §3 C12",
+        text="fimo() is run on generated motif sets (1-8, width 2-20) and sequences over ACGTN (random, consensus planted at 0 / L-w / "
+             "interior on either strand, shorter than the motif, lower case, tensor / numpy / FASTA input) and its hit set is compared, "
+             "order-free and field by field, with every window 0..L-w of both strands scored by an independent scanner against the score "
+             "threshold derived from the exact tail table; return_counts, dim=1, FASTA-vs-tensor and thread-count views must describe the "
+             "same set. A directed generator tunes a planted window's score into the gap between the exact threshold and its float32 "
+             "rounding.",
+        note="Windows within 1e-9(1+|t|) of the threshold or 1e-9 of a bin edge are ignored and counted; for negative scores the table "
+             "entry of either the truncated or the floored bin is accepted. Thread counts up to 4 (quick) / 16 (thorough)."),
     "C15": dict(
         technique="property-based testing (Hypothesis) with a string round-trip / direct-slicing oracle + exhaustive small-scope enumeration",
         category="exploration", design_ref="DESIGN.md §3 C15",
